@@ -952,3 +952,19 @@ for _rid in ("C01-r", "C02-r", "C03-r", "C04-r", "C05-r", "C07-r", "C08-r", "C09
              "C10-r", "C11-r", "C12-r", "C13-r", "C14-r", "C15-r", "C16-r", "C17-r",
              "C18-r", "C19-r", "C20-r"):
     refactored(_rid)
+
+
+# -- rules derived from the mutation study, round 2 (DESIGN.md 10.7)
+v("C14", "unflatten-shape-keeps-whole-entry", "fire", T,
+  "            shape[depth + d] = s[0]", "            shape[depth + d] = s[1]", "C14.R1")
+v("C14", "unflatten-shape-len-test", "fire", T,
+  "            if len(s) == 2:", "            if len(s) == 1:", "C14.R1")
+v("C09", "modifyRoot-below-depth-2", "fire", T,
+  "funcBelow(root, depth=depth - 1, **kwargs)", "funcBelow(root, depth=depth - 2, **kwargs)", "C09.R4")
+v("C13", "uncompress-filler-level-2", "fire", F,
+  "                f.append(self._fillempty(shape, level + 1))", "                f.append(self._fillempty(shape, level + 2))", "C13.R2")
+v("C13", "uncompress-leaf-not-appended", "fire", F,
+  "                else:\n                    f.append(Payload.get(p))\n", "                else:\n                    pass\n", "C13.R2")
+v("C13", "silent-uncompress-elif", "silent", F,
+  "            if (mask == \"B\"):\n                f.append(self._fillempty(shape, level + 1))",
+  "            elif (mask == \"B\"):\n                f.append(self._fillempty(shape, level + 1))", None)
